@@ -8,4 +8,9 @@ void set_ns(int64_t t);
 void reset();
 void dns_config(uint32_t fail_mask, uint32_t two_addr_mask);
 int dns_lookups();
+// gated DNS: getaddrinfo blocks until the explorer releases it (slow DNS, stop actions while a resolve is in flight)
+void dns_gate(bool on);
+int dns_pending();
+void dns_release(bool fail);
+void dns_release_all();
 }
